@@ -18,11 +18,11 @@ theorem rateId_ok : [8000, 12000, 16000, 24000, 48000].map rateId = SilkSynth.ra
 
 instance (c : Cfg) (l : List Acc) : Decidable (AllIn c l) := by unfold AllIn; infer_instance
 
-def outOkB (x : OutIn) : Bool := !(outAccesses x).2 && decide (AllIn x.cfg (outAccesses x).1)
+def outOkB (x : OutIn) : Bool := !(outAccesses x).aborted && decide (AllIn x.cfg (outAccesses x).all)
 
 theorem outOk_all : ∀ fs ∈ [8, 12, 16], ∀ nb ∈ [2, 4], ∀ nci ∈ [1, 2], ∀ nca ∈ [1, 2],
     ∀ api ∈ [8000, 12000, 16000, 24000, 48000], ∀ hs ∈ [false, true], ∀ stm ∈ [false, true], ∀ lost ∈ [false, true],
-    outOkB ⟨fs, nb, nci, nca, api, hs, stm, lost⟩ = true := by
+    ∀ sst ∈ [false, true], outOkB ⟨fs, nb, nci, nca, api, hs, stm, lost, sst⟩ = true := by
   decide +kernel
 
 /-- The number of output samples is `frame_length · API_rate / (fs_kHz · 1000) = nb_subfr · 5 · API_kHz`. -/
@@ -30,15 +30,15 @@ theorem nSamplesOut_all : ∀ fs ∈ [8, 12, 16], ∀ nb ∈ [2, 4], ∀ api ∈
     (cfgOf fs nb).frameLen * api / (fs * 1000) = (nb : Int) * 5 * (api / 1000) := by
   decide +kernel
 
-theorem outAccesses_ok (fs : Int) (nb : Nat) (nci nca api : Int) (hs stm lost : Bool)
+theorem outAccesses_ok (fs : Int) (nb : Nat) (nci nca api : Int) (hs stm lost sst : Bool)
     (hfs : fs = 8 ∨ fs = 12 ∨ fs = 16) (hnb : nb = 2 ∨ nb = 4) (hci : nci = 1 ∨ nci = 2) (hca : nca = 1 ∨ nca = 2)
     (hapi : api = 8000 ∨ api = 12000 ∨ api = 16000 ∨ api = 24000 ∨ api = 48000) :
-    (outAccesses ⟨fs, nb, nci, nca, api, hs, stm, lost⟩).2 = false ∧
-    AllIn (OutIn.cfg ⟨fs, nb, nci, nca, api, hs, stm, lost⟩) (outAccesses ⟨fs, nb, nci, nca, api, hs, stm, lost⟩).1 := by
+    (outAccesses ⟨fs, nb, nci, nca, api, hs, stm, lost, sst⟩).aborted = false ∧
+    AllIn (OutIn.cfg ⟨fs, nb, nci, nca, api, hs, stm, lost, sst⟩) (outAccesses ⟨fs, nb, nci, nca, api, hs, stm, lost, sst⟩).all := by
   have h := outOk_all fs (by rcases hfs with h | h | h <;> simp [h]) nb (by rcases hnb with h | h <;> simp [h])
     nci (by rcases hci with h | h <;> simp [h]) nca (by rcases hca with h | h <;> simp [h])
     api (by rcases hapi with h | h | h | h | h <;> simp [h]) hs (by cases hs <;> simp) stm (by cases stm <;> simp)
-    lost (by cases lost <;> simp)
+    lost (by cases lost <;> simp) sst (by cases sst <;> simp)
   unfold outOkB at h
   simp only [Bool.and_eq_true, Bool.not_eq_true', decide_eq_true_eq] at h
   exact h
